@@ -63,3 +63,33 @@ Theorem C08_failed_operation_leaves_what_is_held_unchanged :
     ExnModel.run_faulted (ExnModel.op_of o w) k w = ExnModel.Thrown fk w' -> ExnModel.obs w' = ExnModel.obs w.
 Proof. exact ExnFault.plan_ops_strong. Qed.
 Print Assumptions C08_failed_operation_leaves_what_is_held_unchanged.
+
+(* reference counting frees exactly what reachability says: the removed nodes hold no cycle of previous/next references
+   (CLCycle.v).  For EVERY history of the critical sections of callbacklist.h — append, prepend, insert (before a live
+   or a dead handle), remove, in any order and from any threads — the removed nodes can be ranked so that every pointer
+   from a removed node to a removed node goes to a strictly higher rank; so no removed node reaches itself.  Together
+   with C08_chain_holds_only_live_nodes (nothing live points to a removed node) this is what makes "released as soon as
+   no running invocation pins it" follow from the reachability model.  P1 (687a2ff) had been such a cycle. *)
+From EV Require CLConcProofs CLCycle.
+
+Theorem C08_removed_nodes_hold_no_reference_cycle :
+  forall l, Forall CLConcProofs.sec_counter_ok l ->
+    forall x, ~ CLCycle.dpath (heap (fst (CLConcProofs.run_secs empty_group l))) x x.
+Proof. intros l H. apply CLCycle.acm_no_cycle. apply CLCycle.from_the_empty_list. exact H. Qed.
+Print Assumptions C08_removed_nodes_hold_no_reference_cycle.
+
+Theorem C08_removed_nodes_can_be_ranked_by_removal :
+  forall l g ids, GInv g ids -> Forall CLConcProofs.sec_counter_ok l -> CLCycle.ACM (heap g) ->
+    CLCycle.ACM (heap (fst (CLConcProofs.run_secs g l))).
+Proof. exact CLCycle.removed_nodes_hold_no_reference_cycle. Qed.
+Print Assumptions C08_removed_nodes_can_be_ranked_by_removal.
+
+(* the statement is not vacuous: three callbacks, the middle one removed, then its neighbour: two removed nodes, the
+   first still pointing at the second *)
+Example C08_cycle_example :
+  let g := fst (CLConcProofs.run_secs empty_group
+                  [CLConcProofs.SBack 1 1%N; CLConcProofs.SBack 2 2%N; CLConcProofs.SBack 3 3%N;
+                   CLConcProofs.SRemove (Some 1); CLConcProofs.SRemove (Some 2)]) in
+  CLCycle.deadb (heap g) 1 = true /\ CLCycle.deadb (heap g) 2 = true /\
+  option_map nxt (nth_error (heap g) 1) = Some (Some 2).
+Proof. vm_compute. repeat split; reflexivity. Qed.
